@@ -63,12 +63,12 @@ def _worker_init(prop_id: str):
 
 def _run_chunk(args):
     """Execute a chunk of run indices; returns an aggregate dict (picklable)."""
-    (prop_id, tier, verif_seed, campaign, indices, deadline, want_samples) = args
+    (prop_id, tier, verif_seed, campaign, indices, deadline, want_samples, stop_on_violation) = args
     prop = _PROP
     agg = {
         "runs": 0, "skipped": 0, "nontrivial": 0, "steps": 0,
         "counters": Counter(), "sigs": set(), "states": set(),
-        "samples": [], "violation": None, "error": None, "per_index": {},
+        "samples": [], "violation": None, "violations": [], "n_violating": 0, "error": None, "known": {},
     }
     faulthandler.dump_traceback_later(300, exit=True)
     try:
@@ -107,11 +107,37 @@ def _run_chunk(args):
                 agg["states"].add(sig_hash(st))
             if want_samples and len(agg["samples"]) < want_samples and res.nontrivial:
                 agg["samples"].append(plan)
-            if res.violations:
-                agg["violation"] = {"index": i, "plan": plan,
-                                    "violations": [v.to_json() for v in res.violations],
-                                    "digest": res.digest}
-                break
+            if res.violations and campaign.startswith("known:"):
+                # known-defect region: minimise and classify every failing run right here, in parallel; only runs
+                # whose minimised plan matches no listed finding are forwarded as (candidate) violations
+                from .shrink import shrink
+                from . import findings
+                agg["n_violating"] += 1
+                first = res.violations[0]
+                small, sres, used = shrink(prop, plan, first.oracle, max_exec=250)
+                entry = None
+                if sres is not None:
+                    sv = [x for x in sres.violations if x.oracle == first.oracle][0]
+                    entry = findings.classify(prop_id, small, sv.to_json())
+                if entry is not None:
+                    k = agg["known"].setdefault(entry["id"], {"count": 0, "sample": None})
+                    k["count"] += 1
+                    if k["sample"] is None:
+                        k["sample"] = {"index": i, "plan": small, "violation": sv.to_json(),
+                                       "digest": sres.digest, "shrink_executions": used,
+                                       "original_ops": len(plan.get("ops") or ())}
+                elif len(agg["violations"]) < 4:
+                    agg["violations"].append({"index": i, "plan": plan,
+                                              "violations": [v.to_json() for v in res.violations],
+                                              "digest": res.digest})
+            elif res.violations:
+                agg["n_violating"] += 1
+                if len(agg["violations"]) < 4:
+                    agg["violations"].append({"index": i, "plan": plan,
+                                              "violations": [v.to_json() for v in res.violations],
+                                              "digest": res.digest})
+                if stop_on_violation:
+                    break
     finally:
         faulthandler.cancel_dump_traceback_later()
     return agg
@@ -129,7 +155,7 @@ def run_campaign(prop_id: str, tier: str, verif_seed: int, campaign: str, n_runs
     merged = {
         "runs": 0, "skipped": 0, "nontrivial": 0, "steps": 0, "counters": Counter(),
         "sigs": set(), "states": set(), "samples": [], "violations": [], "errors": [],
-        "requested": n_runs, "wall_s": 0.0, "capped": False,
+        "requested": n_runs, "wall_s": 0.0, "capped": False, "n_violating": 0, "known": {},
     }
     chunks = []
     idx = list(range(start_index, start_index + n_runs))
@@ -149,7 +175,8 @@ def run_campaign(prop_id: str, tier: str, verif_seed: int, campaign: str, n_runs
             except StopIteration:
                 return False
             want = 2 if len(merged["samples"]) < 6 else 0
-            pending.add(ex.submit(_run_chunk, (prop_id, tier, verif_seed, campaign, c, deadline, want)))
+            pending.add(ex.submit(_run_chunk, (prop_id, tier, verif_seed, campaign, c, deadline, want,
+                                                    stop_on_violation)))
             return True
 
         for _ in range(workers * 2):
@@ -181,8 +208,14 @@ def run_campaign(prop_id: str, tier: str, verif_seed: int, campaign: str, n_runs
                 merged["states"] |= agg["states"]
                 if len(merged["samples"]) < 6:
                     merged["samples"].extend(agg["samples"][: 6 - len(merged["samples"])])
-                if agg["violation"]:
-                    merged["violations"].append(agg["violation"])
+                merged["n_violating"] += agg["n_violating"]
+                for kid, kv in agg["known"].items():
+                    mk = merged["known"].setdefault(kid, {"count": 0, "sample": None})
+                    mk["count"] += kv["count"]
+                    if mk["sample"] is None or kv["sample"]["index"] < mk["sample"]["index"]:
+                        mk["sample"] = kv["sample"]
+                if agg["violations"]:
+                    merged["violations"].extend(agg["violations"])
                     if stop_on_violation:
                         stop = True
                 if agg["error"]:
